@@ -185,6 +185,18 @@ Theorem string_key_identity : forall cfg prefer_quoted key,
 Proof. exact string_key_identity_all. Qed.
 Print Assumptions string_key_identity.
 
+(* member access `obj.name` / `obj["name"]` (EDot): for EVERY name (any
+   sequence of Unicode scalar values, i.e. any Go string that is valid UTF-8),
+   every configuration and column, the printer's choice between ".name"
+   (raw, or escaped by QuoteIdentifier under the ASCII charset) and ["name"]
+   yields a text denoting exactly the same property key; QuoteIdentifier's
+   "Cannot encode identifier" panic is unreachable. *)
+Theorem member_name_identity : forall cfg linelen rs,
+  forallb scalar rs = true ->
+  exists out, print_dot_name cfg linelen rs = Some out /\ member_key out = Some (flat_map rune_units rs).
+Proof. exact member_name_identity_all. Qed.
+Print Assumptions member_name_identity.
+
 (* ---- templates with substitutions, BigInt, regular expressions ---- *)
 
 (* an untagged template literal with any number of substitutions: for EVERY
